@@ -907,3 +907,63 @@ def O3(vc):
         outcome = 'cancelled'
         vc.ensure('cancellation_stops_streams', stopped == [st.tasks])
     return (outcome, st.adjusts)
+
+
+# ================================================================================================ O4 (owner, bounded)
+@bounded('O4', targets='kopf._core.reactor.observation._update_resources', props=['C19'],
+         clauses=['served_set_is_exactly_the_selected', 'other_groups_untouched', 'served_objects_are_fresh'],
+         universe='real references.Resource/Selector objects: kinds things.v1/things.v2 (example.com) and other.v1 (other.io), '
+                  'each in an old and a new variant (categories with/without "mycat", preferred flipped); every prior served '
+                  'subset x every discovered subset x 3 selector sets (by category / versionless by name / both) x group in '
+                  '{None, example.com, other.io}; exhaustive')
+def O4(b):
+    """
+    observation._update_resources (revision of the served resources on a CRD/discovery event): after the call the
+    served resources of the re-scanned group are exactly those selected from the freshly discovered ones -- a kind
+    that still exists but no longer matches any selector (e.g. its category was edited away) is no longer served --
+    and resources of other groups are untouched.  Resource objects compare equal on (group, version, plural) only,
+    so the served objects must also BE the freshly discovered ones: a stale object keeps its old `preferred`/
+    `categories` and hides later changes from the selectors.  Bounded: real set algebra over real objects.
+    """
+    import itertools
+    from kopf._cogs.structs import references
+    from kopf._core.reactor import observation
+
+    def mk(group, version, plural, cats, preferred):
+        return references.Resource(group=group, version=version, plural=plural, kind=plural.capitalize(), singular=plural[:-1],
+                                   shortcuts=frozenset(), categories=frozenset(cats), subresources=frozenset(),
+                                   namespaced=True, preferred=preferred, verbs=frozenset({'list', 'watch', 'patch'}))
+    kinds = [('example.com', 'v1', 'things'), ('example.com', 'v2', 'things'), ('other.io', 'v1', 'others')]
+    old = [mk(g, v, p, ['mycat'], v != 'v2') for g, v, p in kinds]
+    new_variants = [
+        [mk(g, v, p, ['mycat'], v != 'v2') for g, v, p in kinds],          # unchanged
+        [mk(g, v, p, [], v != 'v2') for g, v, p in kinds],                 # category edited away
+        [mk(g, v, p, ['mycat'], v == 'v2' or g != 'example.com') for g, v, p in kinds],   # preferred version switched
+    ]
+    selector_sets = [[references.Selector(category='mycat')],
+                     [references.Selector('example.com', 'things')],
+                     [references.Selector(category='mycat'), references.Selector('other.io', 'others')]]
+    subsets = lambda xs: [list(c) for n in range(len(xs) + 1) for c in itertools.combinations(xs, n)]
+    n = 0
+    for prior in subsets(old):
+        for new in new_variants:
+            for source in subsets(new):
+                for selectors in selector_sets:
+                    for group in (None, 'example.com', 'other.io'):
+                        n += 1
+                        served = set(prior)
+                        in_group = lambda r: group is None or r.group == group
+                        # the discovery source of a group scan holds that group's resources only
+                        src = [r for r in source if in_group(r)]
+                        observation._update_resources(served, selectors, group=group, source=src)
+                        want = {r for r in prior if not in_group(r)}
+                        for sel in selectors:
+                            want |= set(sel.select(src))
+                        b.case(key=n, nontrivial=bool(prior) or bool(src))
+                        w = lambda: dict(prior=[repr(r) for r in prior], source=[repr(r) for r in src], group=group,
+                                         selectors=[repr(s) for s in selectors], served=[repr(r) for r in served],
+                                         expected=[repr(r) for r in want])
+                        b.check('served_set_is_exactly_the_selected', {r for r in served if in_group(r)} == {r for r in want if in_group(r)}, w)
+                        b.check('other_groups_untouched', all(any(r is p for p in prior) for r in served if not in_group(r))
+                                and {r for r in served if not in_group(r)} == {r for r in prior if not in_group(r)}, w)
+                        b.check('served_objects_are_fresh', all(any(r is s for s in src) for r in served if in_group(r)), w)
